@@ -697,6 +697,16 @@ V("s-setstate-setattr-loop", "silent", ["C20"], PO7, "        self.__dict__.upda
 V("s-terminated-row-int-zero", "silent", ["C13", "C14"], INF7, "                        0.0,\n", "                        0,\n", note="an integer is a number too")
 V("f-terminated-row-nan-string", "fire", ["C13", "C14"], INF7, "                        0.0,\n", "                        \"n/a\",\n", rules={"C14": ["TIMEOUT.row"]}, note="a text in the time column")
 
+V("f-save-impacts-sorted", "fire", ["C17", "C20"], PO7, "        return self._impacts.copy()\n", "        return sorted(self._impacts)\n", rules={"C17": ["IMPACTS.observe"]}, note="the vector in another order")
+V("f-save-impacts-pops", "fire", ["C17", "C20"], PO7, "        return self._impacts.copy()\n", "        out = self._impacts\n        self._impacts = None\n        return out\n", rules={"C17": ["IMPACTS.observe"]}, note="looking at the impacts takes them away")
+V("s-save-impacts-list", "silent", ["C17", "C20"], PO7, "        return self._impacts.copy()\n", "        return list(self._impacts)\n", note="another way to copy")
+V("f-create-preocf-swapped", "fire", ["C16", "C17", "C18"], PO7, "    if ranking_system == \"system-z\":\n        return SystemZPreOCF(*args, **kwargs)\n", "    if ranking_system == \"system-z\":\n        return RandomMinCRepPreOCF(*args, **kwargs)\n", rules={"C16": ["FACTORY.dispatch"]}, note="the name stands for another class")
+V("f-create-preocf-default", "fire", ["C18"], PO7, "        raise ValueError(f\"Unknown ranking system: {ranking_system}\")\n", "        return CustomPreOCF(*args, **kwargs)\n", rules={"C18": ["FACTORY.dispatch"]}, note="an unknown name silently gives a custom ranking")
+V("s-create-preocf-table", "silent", ["C16", "C17", "C18"], PO7,
+  "    if ranking_system == \"system-z\":\n        return SystemZPreOCF(*args, **kwargs)\n    elif ranking_system == \"random_min_c_rep\":\n        return RandomMinCRepPreOCF(*args, **kwargs)\n    elif ranking_system == \"custom\":\n        return CustomPreOCF(*args, **kwargs)\n    else:\n        raise ValueError(f\"Unknown ranking system: {ranking_system}\")\n",
+  "    table = {\"system-z\": SystemZPreOCF, \"random_min_c_rep\": RandomMinCRepPreOCF, \"custom\": CustomPreOCF}\n    if ranking_system not in table:\n        raise ValueError(f\"Unknown ranking system: {ranking_system}\")\n    return table[ranking_system](*args, **kwargs)\n",
+  note="dispatch table")
+
 
 def main():
     hv = os.path.join(HERE, "harvested.json")
